@@ -30,6 +30,10 @@ type vC04World struct {
 	// names compare without regard to letter case, RFC 4343). One spelling per name and world,
 	// so that the code's exact-string list of visited targets agrees with name identity.
 	spell map[string]string
+	// bareTail: the last two names of the world are denied WITHOUT records (bare NXDOMAIN / empty
+	// NOERROR / NXDOMAIN with a non-SOA authority, all held for the 5 s floor) and the names before
+	// them are mostly aliases: every hop of a chain can end in a record-less denial that has aged
+	bareTail bool
 }
 
 func (w *vC04World) target(name string) string {
@@ -121,6 +125,14 @@ func (w *vC04World) genScript(r *rand.Rand, i int) *vC04Script {
 	shape := r.Intn(15)
 	if i == len(w.names)-1 && shape >= 4 && shape <= 8 {
 		shape = 0
+	}
+	if w.bareTail {
+		if i >= len(w.names)-2 {
+			shape = []int{12, 12, 13, 14}[r.Intn(4)]
+		} else if r.Intn(4) > 0 {
+			shape = 4 // bare alias
+			ttl = []uint32{60, 300, 3600}[r.Intn(3)]
+		}
 	}
 	switch {
 	case shape < 4: // address records
@@ -275,6 +287,12 @@ func vC04TreeHistory(out *vC04Out, r *rand.Rand, budget int, plan *vC04TreePlan)
 	}
 	// some worlds also hold subtree cuts (synthesised denials) at one or two names
 	cutWorld := r.Intn(3) == 0 && plan == nil
+	if plan == nil && !cutWorld && r.Intn(3) == 0 {
+		w.bareTail = true
+		for i := range w.names {
+			env.stub.script[w.names[i]] = w.genScript(r, i)
+		}
+	}
 	var cutNames []string
 	recordCut := func() {
 		name := w.names[1+r.Intn(nn-1)]
@@ -311,6 +329,9 @@ func vC04TreeHistory(out *vC04Out, r *rand.Rand, budget int, plan *vC04TreePlan)
 				panic("corpus tree.jsonl: unknown op " + st.Op)
 			}
 		}
+		if w.bareTail && x == 0 && r.Intn(2) == 0 {
+			x = 1 // fewer re-scriptings, more re-fetched aliases
+		}
 		switch {
 		case x == 0:
 			i := r.Intn(nn)
@@ -321,7 +342,11 @@ func vC04TreeHistory(out *vC04Out, r *rand.Rand, budget int, plan *vC04TreePlan)
 				recordCut()
 				continue
 			}
-			env.c.Purge(dns.Question{Name: w.names[r.Intn(nn)], Qtype: dns.TypeA, Qclass: dns.ClassINET})
+			victim := r.Intn(nn)
+			if w.bareTail {
+				victim = r.Intn(nn - 2) // an alias is fetched again while the denial it ends in stays cached and ages
+			}
+			env.c.Purge(dns.Question{Name: w.names[victim], Qtype: dns.TypeA, Qclass: dns.ClassINET})
 			continue
 		case x < 5:
 			// step the clock: towards the end of some cached entry, or a stride
